@@ -168,8 +168,14 @@ def _model_value(v):
     return None
 
 
+_SCALE = float(os.environ.get("VERIF_TIMEOUT_SCALE", "2") or 2)
+
+
 def solve(assertions, timeout_s=30.0, want_smt2=False, logic="auto", hard=True, ackermann=True):
-    """assertions: iterable of bool Terms (conjunction).  Returns Result."""
+    """assertions: iterable of bool Terms (conjunction).  Returns Result.
+    The limits written in the harnesses were tuned on an idle 16-core machine;
+    VERIF_TIMEOUT_SCALE (default 2) leaves room for a loaded one."""
+    timeout_s = float(timeout_s) * _SCALE
     low = Lowering(ackermann=ackermann)
     zs = []
     for a in assertions:
